@@ -2,7 +2,7 @@
    model uses primitive floats (bit-exact); used by the unit correspondence only (nothing in props/ depends on this file).
    The nucleotide-score tie-break (resolve_by_nucleotide_score) is applied afterwards by the code; the model stops before it. *)
 From Coq Require Import ZArith NArith QArith List Bool Floats Uint63.
-From IQ Require Import CorrSupport Intervals Junctions Assigner.
+From IQ Require Import CorrSupport Intervals Junctions AssignerDefs.
 From IQ.gen Require Import Tables Prims.
 Import ListNotations. Open Scope Z_scope.
 
